@@ -31,7 +31,7 @@ var c11Unbound = reg("C11", "c11-unbound", checkC11Unbound)
 // that spell axis names.
 func genEnvBindings(t *rapid.T) map[string]string {
 	ns := map[string]string{}
-	cands := []string{"x", "y", "p", "q", "x2", "child", "self", "text", "a-b"}
+	cands := []string{"x", "y", "p", "q", "x2", "child", "self", "text", "a-b", "xml"}
 	for _, p := range cands {
 		switch rapid.IntRange(0, 3).Draw(t, "bind-"+p) {
 		case 0:
@@ -501,7 +501,7 @@ func TestC11(t *testing.T) {
 		elems, attrs, targets := docNames(p.doc)
 		g := &xast.G{T: t, Env: xast.GenEnv{ElemNames: queryable(elems), AttrNames: queryable(attrs), PITargets: targets, Prefixes: sortedKeys(ns), NoNSAxis: true}}
 		c := &c11RenameCase{Events: ev, Ctx: "/", NS: ns, Expr: g.NodeSet(2, false), Map: map[string]string{}, DocMap: map[string]string{"p": "q", "q": "p", "": "dflt"}}
-		fresh := []string{"k1", "k2", "k3", "k4", "k5", "k6", "k7", "k8", "k9"}
+		fresh := []string{"k1", "k2", "k3", "k4", "k5", "k6", "k7", "k8", "k9", "k10", "k11", "k12"}
 		for i, pf := range sortedKeys(ns) {
 			c.Map[pf] = fresh[i]
 		}
@@ -611,6 +611,8 @@ func TestC11(t *testing.T) {
 			{"$nope", "variable"}, {"1 + $nope", "variable"}, {"$x:nope", "variable"}, {"$zz:v", "prefix"}, {"//*[$nope]", "variable"},
 			{"nope()", "function"}, {"x:nope(1)", "function"}, {"zz:f()", "prefix"}, {"//*[nope(.)]", "function"}, {"concat('a', nope())", "function"},
 			{"self::zz:a", "prefix"}, {"string(x:nope())", "function"}, {"p:a", "prefix"}, {"//q:*", "prefix"},
+			// no prefix is bound implicitly, xml included
+			{"//xml:a", "prefix"}, {"//@xml:lang", "prefix"}, {"count(//@xml:*)", "prefix"}, {"$xml:v", "prefix"}, {"xml:f()", "prefix"}, {"//*[@xml:lang = 'en']", "prefix"},
 			// the left operand of and/or is always evaluated
 			{"nope() or true()", "function"}, {"$nope or 1", "variable"}, {"//zz:a or true()", "prefix"}, {"nope() and false()", "function"}, {"$zz:v and 0", "prefix"},
 			{"(nope() or true()) and true()", "function"}, {"//*[$nope or .]", "variable"}, {"count(//*[nope() or true()])", "function"}, {"1 + nope() > 0 or true()", "function"},
